@@ -296,6 +296,13 @@ def handle (op : String) (args : List String) : String :=
       | .ok t => "ok\t" ++ (renderTy t).render
       | .error err => "err\t" ++ err.render)
     | _, _, _ => bad
+  | "streamOpEff", [m, ty, lam] =>
+    -- the declared callback sites (Model/EffectSpec.lean): the specification of C09, run on the lambda the user wrote
+    match parseModel m, (SExpr.parse ty).bind parseTy, parseExpr lam with
+    | some m, some ty, some (.lam [x] body) =>
+      let w := streamOpEff m ty x body
+      "ok\t" ++ (SExpr.list [.list (PyVal.toSExprL w.md), strsToSExpr w.log]).render
+    | _, _, _ => bad
   | "untypedHyp", [m, ty, lam] =>
     -- hypotheses of streamOp_untyped_identity: untyped item type, no call of a registered function by name
     match parseModel m, (SExpr.parse ty).bind parseTy, parseExpr lam with
